@@ -41,12 +41,15 @@ def gen_model(rng, dt):
             mods['conv2'] = nn.Conv2d(cout, cout, 1, bias=False)
         mods['act0'] = nn.ReLU()
         mods['flat'] = nn.Flatten()
-        feat = cout * (4 + 2 * pad - k + 1) ** 2
+        # sometimes a feature map with more than 1024 output positions (any sub-sampling / chunking threshold)
+        side = 36 if rng.random() < 0.15 else 4
+        feat = cout * (side + 2 * pad - k + 1) ** 2
     else:
         feat = 4
     mods['fc1'] = nn.Linear(feat, 5, bias=rng.random() < 0.7)
     mods['norm'] = nn.LayerNorm(5)
     mods['act1'] = nn.Tanh()
+    mods['drop'] = nn.Dropout(0.3)      # consumes the global RNG in training mode: K-FAC's hooks must not shift that stream
     mods['skipme'] = nn.Linear(5, 5)
     # a skipped sub-tree whose attribute name contains a model-wrapper prefix ('module.') without being a wrapper
     adapter = nn.Sequential()
@@ -63,7 +66,7 @@ def gen_model(rng, dt):
         p.requires_grad_(False)
     m.partly.bias.requires_grad_(False)
     m = m.to(dt)
-    x = torch.randn(6, cin, 4, 4) if conv else torch.randn(6, 4)
+    x = torch.randn(6, cin, side, side) if conv else torch.randn(6, 4)
     if conv and rng.random() < 0.4:
         x = x.contiguous(memory_format=torch.channels_last)
     return m, x.to(dt), ['skip', rng.choice([r'adapter_module', r'^adapter_module\.fc$', r'_module\.'])]
@@ -127,15 +130,17 @@ def run(ctx):
             fdt = torch.float16
             x = torch.where(x >= 0, torch.ones_like(x), -torch.ones_like(x)) * 150.0
         empty_first = (not conv_model) and rng.random() < 0.3
+        no_clip = rng.random() < 0.3
         case = {'dtype': str(dt), 'method': method, 'scaler': scaler, 'accum': accum, 'factor_dtype': str(fdt),
-                'large_activations_fp16_factors': big, 'empty_batch_first': empty_first,
+                'large_activations_fp16_factors': big, 'empty_batch_first': empty_first, 'kl_clip_none': no_clip,
                 'channels_last': bool(conv_model and not x.is_contiguous()),
                 'modules': [type(c).__name__ for c in m], 'bias': [getattr(c, 'bias', None) is not None for c in m]}
         try:
             p = KFACPreconditioner(m, skip_layers=skip, compute_method=method, accumulation_steps=accum,
                                    grad_scaler=(None if scaler is None else (lambda s=scaler: s)), factor_dtype=fdt,
                                    compute_eigenvalue_outer_product=(method == 'eigen' and rng.random() < 0.5),
-                                   damping=0.05, inv_dtype=rng.choice([torch.float32, torch.float64]))
+                                   damping=0.05, inv_dtype=rng.choice([torch.float32, torch.float64]),
+                                   **({'kl_clip': None} if no_clip else {}))
             registered = {n for n, _ in p._layers.values()}
             # the layers the statement allows a step to touch, computed from the statement (not from the implementation)
             eligible = {n for n, _ in reg.independent_walk(m, skip, False)}
@@ -156,7 +161,10 @@ def run(ctx):
             # ---- registering K-FAC does not change outputs or autograd gradients
             for mb in range(accum):
                 x1, x2 = x.clone(memory_format=torch.preserve_format), x.clone(memory_format=torch.preserve_format)
+                fw_seed = rng.randrange(10**6)
+                torch.manual_seed(fw_seed)
                 y1 = m(x1)
+                torch.manual_seed(fw_seed)
                 y2 = twin(x2)
                 if not torch.equal(x1, x):
                     ctx.fail('the forward hook changed the input of the model in place', case, 'input-changed')
